@@ -19,6 +19,19 @@ CHECKS = {
     ),
 }
 
+CHECKS.update({
+    "C02": dict(
+        technique="property-based testing: Hypothesis definition+input generator, oracle = independent reference decoder producing the mask of data-carrying bits; dumps compared bitwise against the input under the mask",
+        text="generated-input search over definitions x configurations x canonical inputs with garbage in every padding/unassigned bit; the oracle is a reference model of the layout written from the C rules, so both directions are checked (data bits reproduced, non-data bits zero, length == consumed)",
+        design_ref="DESIGN.md §4 C02",
+    ),
+    "C03": dict(
+        technique="differential property-based testing: same generated definition loaded compiled and interpreted, compared on constructive inputs, every truncation and raw bytes; exhaustive enumeration of all field-kind triples",
+        text="differential search compiled vs interpreted reader over generated definitions x inputs (values, consumed bytes, recorded sizes, layout, outcome asymmetry on short input), plus an exhaustive enumeration of all 14^3 field-kind triples in packed and aligned mode with all cut points",
+        design_ref="DESIGN.md §4 C03",
+    ),
+})
+
 NOT_YET = {}
 
 
